@@ -1,6 +1,6 @@
 (* C15/Props.v — property theorems only: each is closed by [exact] of a lemma proved in
    Proofs.v and followed by Print Assumptions. *)
-From Verif Require Import Lib.Bytes C15.Model C15.Proofs.
+From Verif Require Import Lib.Bytes C15.Model C15.Proofs C15.PointModel C15.PointProofs.
 From VerifGen Require Import Consts.
 
 (* No byte stream makes ReadLV panic, and the frame buffer it allocates is always
@@ -50,7 +50,138 @@ Theorem readlv_unpatched_refuted :
 Proof. exact read_lv_unpatched_crashes. Qed.
 Print Assumptions readlv_unpatched_refuted.
 
+(* ---------- streamed query points (PointModel.v) ---------- *)
+Open Scope N_scope.
+
+(* Tags.ID(): a non-empty tag map whose keys and values contain no NUL byte is read back
+   from its id, and newTagsID keeps the id *)
+Theorem tags_id_roundtrip :
+  forall kvs : list (bytes * bytes), kvs <> [] -> wf_kvs kvs ->
+  decode_tags (encode_tags kvs) = kvs /\ new_tags_id (encode_tags kvs) = encode_tags kvs.
+Proof.
+  intros kvs Hne W. split; [exact (decode_encode_tags kvs Hne W) | exact (new_tags_id_encode kvs W)].
+Qed.
+Print Assumptions tags_id_roundtrip.
+
+(* every auxiliary value — each typed value, each typed nil marker, the untyped nil —
+   is read back as itself; in particular AString [] is not AStringNil *)
+Theorem aux_roundtrip :
+  forall a : auxv, wf_aux a ->
+  parse_aux (encode_aux a) = ROk (aux_acc_of a) /\ decode_aux (aux_acc_of a) = a.
+Proof. intros a W. split; [exact (parse_aux_encode a W) | exact (decode_aux_of a W)]. Qed.
+Print Assumptions aux_roundtrip.
+
+(* for EVERY well-formed point of each of the five value types (any name bytes, any
+   Tags.ID() that newTagsID keeps, any time, nil flag, any aux list, any aggregate count):
+   the protobuf body decodes to the point, and the framed point read by the reader loop
+   gives exactly that point and a clean end of stream *)
+Theorem pointframe_roundtrip :
+  forall (trace_ok : bytes -> bool) (t : ptype) (p : point),
+  wf_point t p -> N.of_nat (length (encode_point_body p)) < two32 ->
+  decode_body t (encode_point_body p) = ROk (FPoint p) /\
+  read_frames_of trace_ok t (frame (encode_point_body p)) = ([p], SEof).
+Proof.
+  intros trace_ok t p W L.
+  split; [exact (decode_encode_point_body t p W) | exact (pointframe_roundtrip_lemma trace_ok t p W L)].
+Qed.
+Print Assumptions pointframe_roundtrip.
+
+(* a stream of frames (points, stats frames, trace frames) decodes to the same sequence
+   of points; stats and trace frames are skipped; the stream ends cleanly *)
+Theorem pointstream_roundtrip :
+  forall (trace_ok : bytes -> bool) (t : ptype) (items : list item),
+  Forall (wf_item trace_ok t) items ->
+  read_frames_of trace_ok t (encode_items items) = (points_of items, SEof).
+Proof. exact stream_roundtrip. Qed.
+Print Assumptions pointstream_roundtrip.
+
+(* what IteratorEncoder writes (stats, the points, stats, optional trace) is read back as
+   exactly the points *)
+Theorem iterator_stream_roundtrip :
+  forall (trace_ok : bytes -> bool) (t : ptype) (ps : list point) (sn pn : N) (trace : bytes),
+  Forall (wf_item trace_ok t) (encode_iterator ps sn pn trace) ->
+  read_frames_of trace_ok t (encode_items (encode_iterator ps sn pn trace)) = (ps, SEof).
+Proof. exact iterator_roundtrip_lemma. Qed.
+Print Assumptions iterator_stream_roundtrip.
+
+(* for EVERY byte string the frame reader and the message decoder end in Ok or Err:
+   every slice the decoder takes is guarded by a length check *)
+Theorem point_decode_never_crash :
+  forall (trace_ok : bytes -> bool) (t : ptype) (s : bytes),
+  snd (read_frames_of trace_ok t s) <> SCrash /\ decode_body t s <> RCrash.
+Proof.
+  intros trace_ok t s. split; [exact (never_crash_lemma trace_ok t s) | exact (decode_body_no_crash t s)].
+Qed.
+Print Assumptions point_decode_never_crash.
+
+(* the reader loop does not depend on the fuel once it exceeds the input length *)
+Theorem read_stream_fuel_independent :
+  forall trace_ok t f s, (length s < f)%nat -> read_stream trace_ok t f s = read_frames_of trace_ok t s.
+Proof. intros trace_ok t f s H. apply read_stream_fuel; [exact H | unfold lt; apply le_n]. Qed.
+Print Assumptions read_stream_fuel_independent.
+
 (* non-vacuity *)
+Definition example_point : point :=
+  mkPoint [99;112;117] (encode_tags [([104;111;115;116], [97]); ([114], [])]) 18446744073709551615 true
+          [AString []; AStringNil; AFloat 4609434218613702656; AFloatNil; AInteger 18446744073709551615;
+           AIntegerNil; AUnsigned 0; AUnsignedNil; ABoolean false; ABooleanNil; AUnknown]
+          4294967295 (VFloat 9221120237041090561).
+
+Example example_point_wf :
+  wf_point TFloat example_point /\
+  N.of_nat (length (encode_point_body example_point)) < two32.
+Proof.
+  split; [|vm_compute; reflexivity].
+  unfold wf_point.
+  split; [vm_compute; reflexivity|].
+  split; [vm_compute; reflexivity|].
+  split; [vm_compute; reflexivity|].
+  split; [vm_compute; reflexivity|].
+  split; [vm_compute; reflexivity|].
+  split.
+  { unfold example_point. cbn [p_aux].
+    repeat (apply Forall_cons; [vm_compute; first [reflexivity | exact I]|]). apply Forall_nil. }
+  split.
+  { unfold example_point. cbn [p_aux].
+    repeat (apply Forall_cons; [vm_compute; reflexivity|]). apply Forall_nil. }
+  vm_compute. reflexivity.
+Qed.
+
+Example example_point_roundtrip :
+  read_frames_of (fun _ => true) TFloat (frame (encode_point_body example_point)) = ([example_point], SEof).
+Proof. vm_compute. reflexivity. Qed.
+
+Example empty_string_aux_is_not_nil :
+  encode_aux (AString []) <> encode_aux AStringNil /\
+  (exists a, parse_aux (encode_aux (AString [])) = ROk a /\ decode_aux a = AString []) /\
+  (exists a, parse_aux (encode_aux AStringNil) = ROk a /\ decode_aux a = AStringNil).
+Proof.
+  split; [vm_compute; discriminate|].
+  split; eexists; split; vm_compute; reflexivity.
+Qed.
+
+Example example_stream_roundtrip :
+  let items := [IStats 1 2; IPoint example_point; IStats 1 3; ITrace [1;2;3]] in
+  Forall (wf_item (fun _ => true) TFloat) items /\
+  read_frames_of (fun _ => true) TFloat (encode_items items) = ([example_point], SEof).
+Proof.
+  cbv zeta. split; [|vm_compute; reflexivity].
+  apply Forall_cons; [split; [vm_compute; reflexivity|split; vm_compute; reflexivity]|].
+  apply Forall_cons; [split; [vm_compute; reflexivity|exact (proj1 example_point_wf)]|].
+  apply Forall_cons; [split; [vm_compute; reflexivity|split; vm_compute; reflexivity]|].
+  apply Forall_cons; [|apply Forall_nil].
+  split; [vm_compute; reflexivity|].
+  split; [discriminate|]. split; [vm_compute; reflexivity|reflexivity].
+Qed.
+
+(* a malformed frame is an error, not a crash: missing required field; truncated varint *)
+Example malformed_frames_are_errors :
+  read_frames_of (fun _ => true) TFloat [0;0;0;2;8;1] = ([], SErr) /\
+  read_frames_of (fun _ => true) TFloat [0;0;0;1;255] = ([], SErr) /\
+  read_frames_of (fun _ => true) TFloat [0;0;1] = ([], SErr) /\
+  read_frames_of (fun _ => true) TFloat [0;0;0;9;1] = ([], SErr).
+Proof. vm_compute. repeat split; reflexivity. Qed.
+
 Example tlv_roundtrip_nonvacuous :
   read_tlv (write_tlv 21 [1;2;3]%N ++ [9]%N) = TlvOk 21%N [1;2;3]%N [9]%N.
 Proof. vm_compute. reflexivity. Qed.
